@@ -260,3 +260,21 @@ def staledep_ok(merge, aliases, make):
         if not covered:
             return merge
         merge = make(merge, covered)
+
+
+def memokey1(x, y, w, h, cache):
+    key = (x, y)
+    if key in cache:
+        return cache[key]
+    value = (x % w, y % h)
+    cache[key] = value
+    return value
+
+
+def memokey_ok(x, y, w, h, cache):
+    key = (x, y, w, h)
+    if key in cache:
+        return cache[key]
+    value = (x % w, y % h)
+    cache[key] = value
+    return value
